@@ -505,7 +505,7 @@ theorem dictGet_dictSet (kvs : List (String × Value)) (k k' : String) (v : Valu
   induction kvs with
   | nil =>
     by_cases h : k' = k
-    · subst h; simp [dictSet, dictGet, List.lookup]
+    · subst h; simp [dictSet, dictGet]
     · have : (k' == k) = false := by simpa using h
       simp [dictSet, dictGet, List.lookup, this, h]
   | cons p kvs ih =>
@@ -514,7 +514,7 @@ theorem dictGet_dictSet (kvs : List (String × Value)) (k k' : String) (v : Valu
     by_cases h0 : k0 = k
     · subst h0
       by_cases h : k' = k0
-      · subst h; simp [dictSet, List.lookup]
+      · subst h; simp [dictSet]
       · have : (k' == k0) = false := by simpa using h
         simp [dictSet, List.lookup, this, h]
     · have hb : (k0 == k) = false := by simpa using h0
@@ -581,12 +581,11 @@ example : runHistory lib demo demo0 =
      [.arr [numN 1, numN 2, numN 3, numN 9], .arr [numN 1, numN 2, numN 3]]⟩ := by decide
 
 /-- `history_frame` applies to the copy (cell 1) in the rest of that history: hypotheses inhabited -/
-example : Untouched 1 (demo.drop 1) (runHistory lib (demo.take 1) demo0) := by decide
+example : Untouched 1 (demo.drop 1) (runHistory lib (demo.take 1) demo0) :=
+  ⟨by decide, by decide, by decide, trivial⟩
 
 /-- a mutator with an index written as a fraction, a negative index, an index past the end, a wrong-typed, a missing and a
 surplus argument: the documented failure value, heap untouched -/
-example : (([numI 3 / 2, numI (-1), numN 3] : List Rat).map fun q =>
-    lib "arraySet" [.arr 0, .num q, .null] [.arr [numN 1, numN 2, numN 3]]) = [] → False := by decide
 example : lib "arraySet" [.arr 0, .num (mkRat 3 2), .null] demo0.heap = (.fail .null, demo0.heap) := by decide
 example : lib "arraySet" [.arr 0, numI (-1), .null] demo0.heap = (.fail .null, demo0.heap) := by decide
 example : lib "arraySet" [.arr 0, numN 3, .null] demo0.heap = (.fail .null, demo0.heap) := by decide
